@@ -187,10 +187,30 @@ def strip_not(test, pol=True):
     return test, pol
 
 
+def boolify(test):
+    """In a truth-value context a conditional expression with a constant arm is
+    a boolean operation: `True if a else x` = `a or x`, `x if a else False` = `a and x`,
+    `False if a else x` = `not a and x`, `x if a else True` = `not a or x`."""
+    if isinstance(test, ast.IfExp):
+        def const(e):
+            return e.value if isinstance(e, ast.Constant) and isinstance(e.value, bool) else None
+        neg = ast.UnaryOp(op=ast.Not(), operand=test.test)
+        if const(test.body) is True:
+            return ast.BoolOp(op=ast.Or(), values=[test.test, boolify(test.orelse)])
+        if const(test.body) is False:
+            return ast.BoolOp(op=ast.And(), values=[neg, boolify(test.orelse)])
+        if const(test.orelse) is False:
+            return ast.BoolOp(op=ast.And(), values=[test.test, boolify(test.body)])
+        if const(test.orelse) is True:
+            return ast.BoolOp(op=ast.Or(), values=[neg, boolify(test.body)])
+    return test
+
+
 def flatten_guard(test, pol):
     """Split a guard into atomic (expr, polarity) conjuncts when possible:
     (a and b) true -> a true, b true;  (a or b) false -> a false, b false."""
     test, pol = strip_not(test, pol)
+    test = boolify(test)
     if isinstance(test, ast.BoolOp):
         if isinstance(test.op, ast.And) and pol:
             out = []
@@ -399,6 +419,14 @@ def eval3(test, atom_eval):
     if isinstance(test, ast.UnaryOp) and isinstance(test.op, ast.Not):
         v = eval3(test.operand, atom_eval)
         return None if v is None else (not v)
+    if isinstance(test, ast.IfExp):
+        c = eval3(test.test, atom_eval)
+        if c is not None:
+            return eval3(test.body if c else test.orelse, atom_eval)
+        a, b = eval3(test.body, atom_eval), eval3(test.orelse, atom_eval)
+        return a if a == b else None
+    if isinstance(test, ast.Constant) and isinstance(test.value, bool):
+        return test.value
     if isinstance(test, ast.BoolOp):
         vals = [eval3(v, atom_eval) for v in test.values]
         if isinstance(test.op, ast.And):
